@@ -2740,6 +2740,56 @@ fn random_cuts(rng: &mut Rng, t: &str, pad: bool) -> Vec<usize> {
     cuts
 }
 
+/// `similar::utils::diff_slices` on caller-provided item slices, compared with the model (`helperslices` request)
+fn helper_slices_case(ctx: &mut Ctx, alg: Algorithm, old: &[u32], new: &[u32]) {
+    let req = format!("helperslices {} | {} | {} | -", alg_name(alg), proto::show_seq(0, old), proto::show_seq(0, new));
+    let r = catch_unwind(AssertUnwindSafe(|| {
+        similar::utils::diff_slices(alg, old, new)
+            .into_iter()
+            .map(|(t, sl)| {
+                let base = if t == ChangeTag::Insert { new } else { old };
+                let start = (sl.as_ptr() as usize).wrapping_sub(base.as_ptr() as usize) / std::mem::size_of::<u32>();
+                let inside = sl.is_empty() || (start + sl.len() <= base.len() && std::ptr::eq(sl.as_ptr(), base[start..].as_ptr()));
+                (t, start, sl.to_vec(), inside)
+            })
+            .collect::<Vec<_>>()
+    }));
+    ctx.count("remap.helper_slices_cases");
+    match r {
+        Err(_) => {
+            ctx.emit(&req, "panic");
+            ctx.violation("C17", &req, "diff_slices panicked".to_string());
+        }
+        Ok(v) => {
+            let ans: Vec<String> = v
+                .iter()
+                .map(|(t, start, sl, _)| {
+                    if sl.is_empty() {
+                        format!("{}.e", tag_char(*t))
+                    } else {
+                        format!("{}.{}.{}.{}", tag_char(*t), if *t == ChangeTag::Insert { 'n' } else { 'o' }, start, start + sl.len())
+                    }
+                })
+                .collect();
+            ctx.emit(&req, &format!("ok H={}", ans.join(",")));
+            let o: Vec<u32> = v.iter().filter(|x| x.0 != ChangeTag::Insert).flat_map(|x| x.2.iter().copied()).collect();
+            let n: Vec<u32> = v.iter().filter(|x| x.0 != ChangeTag::Delete).flat_map(|x| x.2.iter().copied()).collect();
+            if o != old || n != new {
+                ctx.violation("C17", &req, format!("diff_slices does not reconstruct the {} slice", if o != old { "old" } else { "new" }));
+            }
+            if v.iter().any(|x| x.2.is_empty()) {
+                ctx.violation("C17", &req, "diff_slices returned an empty slice".to_string());
+            }
+            if v.iter().any(|x| !x.3) {
+                ctx.violation("C17", &req, "a returned slice is not a sub-slice of the caller's slice".to_string());
+            }
+            if v.len() >= 2 {
+                ctx.nontrivial(&req);
+            }
+        }
+    }
+}
+
 /// Implementation only: fewer than 65 535 tokens on each side but more than 65 536 distinct tokens on the two sides
 /// together, through the one-call helpers and the remapper (C17: they reconstruct both texts, return no empty slice
 /// and never panic -- whatever the width of the integers the tokens are mapped to)
@@ -2778,6 +2828,27 @@ pub fn suite_remap(ctx: &mut Ctx) {
     };
     if ctx.take() {
         remap_many_distinct_tokens(ctx);
+    }
+    // the slice helper: every pair up to length 3 over 3 symbols, and random pairs of the seven families
+    let small = gen::all_seqs(3, 3);
+    for a in &small {
+        for b in &small {
+            if !ctx.take() {
+                continue;
+            }
+            for alg in ALGS {
+                helper_slices_case(ctx, alg, a, b);
+            }
+        }
+    }
+    for i in 0..nrand / 4 {
+        if !ctx.take() {
+            continue;
+        }
+        let mut rng = case_rng(ctx, 0x51ce5, i);
+        let sz = 1 + rng.below(40);
+        let (a, b) = gen::gen_pair(&mut rng, gen::FAMILIES[(i % 7) as usize], sz);
+        helper_slices_case(ctx, ALGS[(i % 3) as usize], &a, &b);
     }
     let texts = small_texts(&PIECES, np);
     let mut k = 0u64;
